@@ -12,8 +12,10 @@ import re
 import shutil
 import subprocess
 import tempfile
+import threading
 
 from . import ssa as S
+from . import smt
 from .symex import Ptr, SliceV, Comp
 from .terms import Poly
 
@@ -50,6 +52,7 @@ func lew(b []uint64, n int) *big.Int {
 	return z
 }
 func report(clause string, ok bool) { fmt.Printf("GOVC-REPLAY {\"clause\": %q, \"ok\": %v}\n", clause, ok) }
+func reportPre(clause string, ok bool) { fmt.Printf("GOVC-PRE {\"clause\": %q, \"ok\": %v}\n", clause, ok) }
 '''
 
 
@@ -389,6 +392,9 @@ def obj_value(run, model, oid, t, path=()):
     return model_value(run, model, v, t)
 
 
+_build_lock = threading.Lock()
+
+
 def replay_obligation(repo, ob, rep):
     run = getattr(ob, "run", None)
     if run is None:
@@ -398,8 +404,34 @@ def replay_obligation(repo, ob, rep):
     prog = run.prog
     f = run.f
     c = run.c
-    run._replay_old = getattr(ob, 'old_mem', None)
     model = ob.result.model
+    # the failing query was sliced to the goal's cone of influence, so its model need not satisfy the rest of the
+    # path (preconditions, lengths).  Ask once more with every hypothesis for a complete model.
+    try:
+        from .verifier import domain_for
+        dom = domain_for(ob.mode, getattr(run.dom, "specw", 520))
+        text = dom.emit(ob.decl, ob.bounds, list(ob.hyps), ob.goal, slice_hyps=False)
+        r = smt.run_portfolio(text, timeout=20, want_model=True, need=1, use_cache=False)
+        if r.status == "sat" and r.model:
+            model = r.model
+            rep["replay_model"] = "complete model of the unsliced path (%s)" % r.solver
+        else:
+            rep["replay_model"] = "model of the sliced query only (unsliced query: %s)" % r.status
+    except Exception as e:
+        rep["replay_model"] = "model of the sliced query only (%s: %s)" % (type(e).__name__, e)
+    with _build_lock:
+        run._replay_old = getattr(ob, 'old_mem', None)
+        built = _build_test(run, ob, rep, model)
+    if built is None:
+        return False
+    text, inputs, untranslated, pkgdir = built
+    return _execute(repo, ob, rep, text, inputs, untranslated, pkgdir)
+
+
+def _build_test(run, ob, rep, model):
+    prog = run.prog
+    f = run.f
+    c = run.c
     pkg = f.get("pkg", "")
     localpkg = pkg
     pkgdir = "field" if pkg == FIELD else "."
@@ -429,15 +461,20 @@ def replay_obligation(repo, ob, rep):
             ln = model_value(run, model, v.len, "int")
             if ln < 0 or ln > 4096:
                 rep["replay"] = "model slice length %d is out of replay range" % ln
-                return False
+                return None
             et = prog.elem(t)
+            cp = model_value(run, model, v.cap, "int")
+            cp = max(ln, min(cp, 8192))
             cells = []
-            for j in range(ln):
+            for j in range(cp):
                 cv = (getattr(run, '_replay_old', None) or run.old_mem).get((v.obj, (j,)))
                 cells.append(model_value(run, model, cv, et) if cv is not None else 0)
-            inputs[nm] = cells
-            setup.append("%s := %s{%s}" % (gv, go_type(prog, t, localpkg), ", ".join(str(x) for x in cells)))
-            setup.append("old_%s := append(%s{}, %s...)" % (gv, go_type(prog, t, localpkg), gv))
+            inputs[nm] = cells[:ln] if cp == ln else {"len": ln, "cap": cp, "backing": cells}
+            setup.append("back_%s := %s{%s}" % (gv, go_type(prog, t, localpkg), ", ".join(str(x) for x in cells)))
+            setup.append("%s := back_%s[:%d]" % (gv, gv, ln))
+            setup.append("oldback_%s := append(%s{}, back_%s...)" % (gv, go_type(prog, t, localpkg), gv))
+            setup.append("old_%s := oldback_%s[:%d]" % (gv, gv, ln))
+            setup.append("_ = old_%s" % gv)
             env[nm] = ("slice", gv, t, "old_" + gv)
         elif prog.int_info(t):
             n = model_value(run, model, v, t)
@@ -451,7 +488,7 @@ def replay_obligation(repo, ob, rep):
             env[nm] = ("val", gv, t, None)
         else:
             rep["replay"] = "parameter %s of type %s is not replayable" % (nm, t)
-            return False
+            return None
     for o, gv in objvar.items():
         setup.append("old_%s := *%s" % (gv, gv))
     # call
@@ -486,6 +523,13 @@ def replay_obligation(repo, ob, rep):
             checks.append('report(%s, %s)' % (json.dumps("ensures [%s] %s" % (lab or i + 1, txt)), expr))
         except Exception as e:
             untranslated.append("%s: %s" % (txt, e))
+    prechecks = []
+    for i, (lab, ast, txt) in enumerate(c.requires):
+        try:
+            kind, expr, _ = gen.tr(ast)
+            prechecks.append('reportPre(%s, %s)' % (json.dumps("requires [%s] %s" % (lab or i + 1, txt)), expr))
+        except Exception as e:
+            untranslated.append("requires %s: %s" % (txt, e))
     # frame: parameters' pointees outside assigns
     for i, p in enumerate(f["params"]):
         nm = c.params[i] if i < len(c.params) else p["name"]
@@ -495,12 +539,13 @@ def replay_obligation(repo, ob, rep):
         if kind == "ptr" and not any(env[a][1] == env[nm][1] for a in assigned if a in env and env[a][0] == "ptr"):
             checks.append('report(%s, reflect.DeepEqual(*%s, %s))' % (json.dumps("frame: *%s unchanged" % nm), env[nm][1], env[nm][3]))
         if kind == "slice":
-            checks.append('report(%s, reflect.DeepEqual(%s, %s))' % (json.dumps("frame: %s[...] unchanged" % nm), env[nm][1], env[nm][3]))
+            checks.append('report(%s, reflect.DeepEqual(back_%s, oldback_%s))' % (json.dumps("frame: backing array of %s unchanged" % nm), env[nm][1], env[nm][1]))
     imports = ['"fmt"', '"math/big"', '"reflect"', '"testing"']
     src = ["package %s" % pkgname, "", "import (", "\n".join("\t" + x for x in imports), ")", "", "var _ = reflect.DeepEqual", "var _ = big.NewInt", HELPERS, "",
            "func TestGovcReplay(t *testing.T) {",
            "\tdefer func() { if r := recover(); r != nil { fmt.Printf(\"GOVC-REPLAY {\\\"clause\\\": \\\"panic: %v\\\", \\\"ok\\\": false}\\n\", r) } }()"]
     src += ["\t" + s for s in setup]
+    src += ["\t" + s for s in prechecks]
     if nres:
         src.append("\t%s := %s" % (", ".join(resvars), call))
         src.append("\t" + "; ".join("_ = %s" % r for r in resvars))
@@ -509,6 +554,10 @@ def replay_obligation(repo, ob, rep):
     src += ["\t" + s for s in checks]
     src.append("}")
     text = "\n".join(src) + "\n"
+    return text, inputs, untranslated, pkgdir
+
+
+def _execute(repo, ob, rep, text, inputs, untranslated, pkgdir):
     tmp = tempfile.mkdtemp(prefix="govc_replay_")
     try:
         tf = os.path.join(tmp, "govc_replay_test.go")
@@ -537,6 +586,17 @@ def replay_obligation(repo, ob, rep):
     rep["replay_untranslated"] = untranslated
     rep["replay_test"] = text
     rep["replay_cmd"] = "go test -overlay <ov.json: %s/govc_replay_test.go> -vet=off -run ^TestGovcReplay$ ./%s" % (pkgdir, pkgdir)
+    prebad = []
+    for m in re.finditer(r"^GOVC-PRE (\{.*\})$", out, re.M):
+        try:
+            d = json.loads(m.group(1))
+            if not d.get("ok"):
+                prebad.append(d["clause"])
+        except Exception:
+            pass
+    if prebad:
+        rep["replay"] = "inconclusive: the model's inputs violate the precondition (%s); nothing is claimed about the real code" % "; ".join(prebad)
+        return False
     failed = [x for x in results if not x.get("ok")]
     if failed:
         rep["replay"] = "REPRODUCED on the real code: " + "; ".join(x["clause"] for x in failed)
